@@ -33,6 +33,8 @@ Definition PTinv (L : Z) (t : ptable) : Prop :=
 Definition PPresent (L : Z) (t : ptable) (k : Z) : Prop :=
   exists b i, 0 <= b < 2 ^ L /\ 0 <= i < pcnt (t b) /\ pky (t b) i = k.
 
+Definition PAt (L : Z) (t : ptable) (k b i : Z) : Prop := 0 <= b < 2 ^ L /\ 0 <= i < pcnt (t b) /\ pky (t b) i = k.
+
 (* what pvFind + BucketLimP4::Find examine: probes 0..2^L-1 along the linear path of the TRUE hash while WasFull() *)
 Definition PFound (L : Z) (t : ptable) (k : Z) : Prop :=
   exists p i, 0 <= p < 2 ^ L /\ (forall q, 0 <= q < p -> was_full (t (lidx L (phome L k) q)) = true) /\ 0 <= i < 4 /\
@@ -102,7 +104,9 @@ Lemma padd_nogrow_spec L t code key : 0 <= L <= 63 -> PTinv L t -> 0 <= code < 2
   Gen_P4.pvCalcShortHash code = Gen_P4.pvCalcShortHash (hash key) ->
   (forall p, 0 <= p -> p4_byte code L p = p4_byte (hash key) L p) ->
   match padd_nogrow H t L code key with
-  | Ok t' => PTinv L t' /\ PPresent L t' key /\ (forall k, PPresent L t k -> PPresent L t' k)
+  | Ok t' => PTinv L t' /\ PPresent L t' key /\ (forall k, PPresent L t k -> PPresent L t' k) /\
+             (exists b0 s0, ~ (0 <= s0 < pcnt (t b0)) /\
+                forall k b s, PAt L t' k b s <-> (PAt L t k b s \/ (k = key /\ b = b0 /\ s = s0 /\ 0 <= b0 < 2 ^ L)))
   | Exn => True
   | _ => False
   end.
@@ -137,7 +141,7 @@ Proof.
   assert (Fmpi : forall j, pmpi (t j) = 4 -> pmpi (t' j) = 4).
   { intros j Hj. destruct (Z.eq_dec j idx) as [->|Hne]; [rewrite Fi; cbn [pmpi]; apply Hmpi'; assumption|rewrite Ft by assumption; assumption]. }
   assert (Hidxr : 0 <= idx < 2 ^ L) by (rewrite Hidx; apply lidx_range; lia).
-  split; [split|split].
+  split; [split|split; [|split]].
   - intros j. destruct (Z.eq_dec j idx) as [->|Hne]; [|rewrite Ft by assumption; apply Hwf].
     rewrite Fi. unfold pbwf. rewrite Hcnt'. split; [|split; [unfold b'; cbn [pmpi]; lia|split; [unfold b'; cbn [pmpi]; lia|]]].
     + eapply p4_inv_ext; [| |exact Hinv']; intros i Hi; unfold sh_of_b, bv_of_b, b'; cbn [pky ppr]; unfold upd;
@@ -157,12 +161,20 @@ Proof.
   - intros k (b & i & Hb & Hi & Hk). exists b, i. split; [assumption|].
     destruct (Z.eq_dec b idx) as [->|Hne]; [|rewrite Ft by assumption; split; assumption].
     rewrite Fi, Hcnt'. fold c in Hi. split; [lia|]. unfold b'; cbn [pky]. rewrite upd_other by lia. assumption.
+  - exists idx, c. split; [fold c; lia|]. intros k b s. unfold PAt. destruct (Z.eq_dec b idx) as [->|Hne].
+    + rewrite Fi, Hcnt'. fold c. unfold b'; cbn [pky]. unfold upd. destruct (Z.eqb_spec s c) as [->|Hns]; split.
+      * intros (Hb & Hs & Hk). right. repeat split; try assumption; lia.
+      * intros [(Hb & Hs & Hk)|(-> & _)]; [lia|]. repeat split; try assumption; lia.
+      * intros (Hb & Hs & Hk). left. repeat split; try assumption; lia.
+      * intros [(Hb & Hs & Hk)|(_ & _ & Hs & _)]; [|lia]. repeat split; try assumption; lia.
+    + rewrite Ft by assumption. split; [intros G; left; exact G|intros [G|(_ & Hb & _)]; [exact G|contradiction]].
 Qed.
 
 (* bucket.Remove of ANY element of a bucket keeps the table invariant (removal between insertions) *)
 Lemma premove_at_spec L t b idx : 0 <= L <= 63 -> PTinv L t -> 0 <= idx < pcnt (t b) ->
   exists t', premove_at H mm t b idx = Ok t' /\ PTinv L t' /\ pcnt (t' b) = pcnt (t b) - 1 /\ (forall j, j <> b -> t' j = t j) /\
-    (forall k, PPresent L t k -> k = pky (t b) idx \/ PPresent L t' k).
+    (forall k, PPresent L t k -> k = pky (t b) idx \/ PPresent L t' k) /\
+    pky (t' b) = upd (pky (t b)) idx (pky (t b) (pcnt (t b) - 1)).
 Proof.
   intros HL [Hwf Hel] Hidx. destruct (Hwf b) as (Hinv & Hmpi & Hmpi1 & Hpr). set (c := pcnt (t b)) in *.
   assert (Hbv : forall i, 0 <= i < c -> 128 <= bv_of_b L (t b) i < 256).
@@ -186,7 +198,7 @@ Proof.
   assert (Fi : t' b = b') by (unfold t', ptupd; rewrite Z.eqb_refl; reflexivity).
   assert (Fmpi : forall j, pmpi (t j) = 4 -> pmpi (t' j) = 4).
   { intros j Hj. destruct (Z.eq_dec j b) as [->|Hne]; [rewrite Fi; unfold b'; cbn [pmpi]; apply Hmpi'; assumption|rewrite Ft by assumption; assumption]. }
-  exists t'. split; [reflexivity|]. split; [split|split; [rewrite Fi; exact Hcnt'|split; [exact Ft|]]].
+  exists t'. split; [reflexivity|]. split; [split|split; [rewrite Fi; exact Hcnt'|split; [exact Ft|split]]].
   - intros j. destruct (Z.eq_dec j b) as [->|Hne]; [|rewrite Ft by assumption; apply Hwf].
     rewrite Fi. unfold pbwf. rewrite Hcnt'. split; [|split; [unfold b'; cbn [pmpi]; lia|split; [unfold b'; cbn [pmpi]; lia|]]].
     + eapply p4_inv_ext; [| |exact Hinv']; intros i Hi; unfold sh_of_b, bv_of_b, b'; cbn [pky ppr]; unfold upd;
@@ -206,6 +218,7 @@ Proof.
       * exists b, idx. rewrite Fi, Hcnt'. split; [assumption|]. split; [lia|]. unfold b'; cbn [pky]. rewrite upd_same. assumption.
       * exists b, i. rewrite Fi, Hcnt'. split; [assumption|]. split; [lia|]. unfold b'; cbn [pky]. rewrite upd_other by lia. assumption.
     + right. exists b0, i. rewrite Ft by assumption. split; [assumption|split; assumption].
+  - rewrite Fi. reflexivity.
 Qed.
 
 (* one iteration of pvRelocateItems' inner loop *)
@@ -215,7 +228,13 @@ Lemma prelocate_item_spec L newL told tnew i : 0 <= L -> L < newL <= 63 -> PTinv
   | Ok (told', tnew') =>
       PTinv L told' /\ PTinv newL tnew' /\ pcnt (told' i) = pcnt (told i) - 1 /\ (forall j, j <> i -> told' j = told j) /\
       (forall k, PPresent L told k -> PPresent L told' k \/ PPresent newL tnew' k) /\
-      (forall k, PPresent newL tnew k -> PPresent newL tnew' k)
+      (forall k, PPresent newL tnew k -> PPresent newL tnew' k) /\
+      (* position level: exactly the LAST element of bucket i leaves the old table and enters a free slot of the new one *)
+      (let key := pky (told i) (pcnt (told i) - 1) in
+       PAt L told key i (pcnt (told i) - 1) /\
+       (forall k b s, PAt L told' k b s <-> (PAt L told k b s /\ ~ (b = i /\ s = pcnt (told i) - 1))) /\
+       exists b0 s0, ~ (0 <= s0 < pcnt (tnew b0)) /\
+         forall k b s, PAt newL tnew' k b s <-> (PAt newL tnew k b s \/ (k = key /\ b = b0 /\ s = s0 /\ 0 <= b0 < 2 ^ newL)))
   | Exn => True
   | _ => False
   end.
@@ -245,10 +264,18 @@ Proof.
   destruct Hagree as (Hcr & Ha1 & Ha2 & Ha3).
   pose proof (padd_nogrow_spec newL tnew code key ltac:(lia) Hnew Hcr Ha1 Ha2 Ha3) as Hadd.
   destruct (padd_nogrow H tnew newL code key) as [tnew'| | |]; try exact Hadd.
-  destruct Hadd as (Hnew' & Hpres & Hmono).
-  destruct (premove_at_spec L told i idx ltac:(lia) Hold ltac:(fold c; subst idx; lia)) as (told' & Hrm & Ho' & Hc' & Hfr & Hpr').
-  rewrite Hrm. split; [exact Ho'|]. split; [exact Hnew'|]. split; [exact Hc'|]. split; [exact Hfr|]. split; [|exact Hmono].
-  intros k Hk. destruct (Hpr' k Hk) as [->|Hk']; [right; exact Hpres|left; exact Hk'].
+  destruct Hadd as (Hnew' & Hpres & Hmono & Hpos).
+  destruct (premove_at_spec L told i idx ltac:(lia) Hold ltac:(fold c; subst idx; lia)) as (told' & Hrm & Ho' & Hc' & Hfr & Hpr' & Hky').
+  rewrite Hrm. split; [exact Ho'|]. split; [exact Hnew'|]. split; [exact Hc'|]. split; [exact Hfr|]. split; [|split; [exact Hmono|]].
+  - intros k Hk. destruct (Hpr' k Hk) as [->|Hk']; [right; exact Hpres|left; exact Hk'].
+  - fold c idx key. split; [unfold PAt; split; [assumption|split; [fold c; subst idx; lia|reflexivity]]|]. split; [|exact Hpos].
+    intros k b1 s1. unfold PAt. destruct (Z.eq_dec b1 i) as [->|Hne].
+    + rewrite Hc', Hky'. fold c idx. unfold upd. split.
+      * intros (Hb & Hs1 & Hk). destruct (Z.eqb_spec s1 idx); [subst idx; lia|]. split; [split; [assumption|split; [lia|assumption]]|subst idx; lia].
+      * intros ((Hb & Hs1 & Hk) & Hn). split; [assumption|].
+        assert (s1 <> idx) by (intros ->; apply Hn; split; reflexivity).
+        split; [subst idx; lia|]. destruct (Z.eqb_spec s1 idx); [contradiction|assumption].
+    + rewrite Hfr by assumption. split; [intros G; split; [exact G|intros [E _]; contradiction]|intros [G _]; exact G].
 Qed.
 
 Definition pmig_post (L newL : Z) (told tnew told' tnew' : ptable) : Prop :=
@@ -270,7 +297,7 @@ Proof.
   - split; [|split; [assumption|reflexivity]]. unfold pmig_post. split; [exact Hold|split; [exact Hnew|split; auto]].
   - pose proof (prelocate_item_spec L newL told tnew i HL HnL Hold Hnew Hi ltac:(lia)) as Hstep.
     destruct (prelocate_item H mm hash told tnew L newL i) as [[told1 tnew1]| | |]; try exact Hstep.
-    destruct Hstep as (Ho1 & Hn1 & Hc1 & Hfr1 & Hp1 & Hm1).
+    destruct Hstep as (Ho1 & Hn1 & Hc1 & Hfr1 & Hp1 & Hm1 & _).
     specialize (IH told1 tnew1 (if pgetter_used H (told i) i L newL (pcnt (told i) - 1) then calls + 1 else calls) Ho1 Hn1 ltac:(lia)).
     destruct (pmigrate_bucket H mm hash f told1 tnew1 L newL i _) as [[[told2 tnew2] c2]| | |]; try exact IH.
     destruct IH as ((Ho2 & Hn2 & Hp2 & Hm2) & Hc2 & Hfr2).
@@ -347,7 +374,7 @@ Proof.
   - split; [assumption|]. split; [auto|intros k []].
   - pose proof (padd_nogrow_spec L t (hash k) k HL Ht (hash_range k) eq_refl eq_refl ltac:(intros; reflexivity)) as Ha.
     destruct (padd_nogrow H t L (hash k) k) as [t1| | |]; try exact Ha.
-    destruct Ha as (Ht1 & Hp1 & Hm1). specialize (IH t1 Ht1).
+    destruct Ha as (Ht1 & Hp1 & Hm1 & _). specialize (IH t1 Ht1).
     destruct (pinsert_all H hash t1 L r) as [t2| | |]; try exact IH.
     destruct IH as (Ht2 & Hm2 & Hin). split; [assumption|]. split.
     + intros k0 Hk0. apply Hm2, Hm1. assumption.
@@ -372,7 +399,7 @@ Proof.
     [split; [exact Hid|split; [intros; discriminate|reflexivity]]|].
   pose proof (prelocate_item_spec L newL told tnew i HL HnL Hold Hnew Hi ltac:(lia)) as Hstep.
   destruct (prelocate_item H mm hash told tnew L newL i) as [[told1 tnew1]| | |]; try exact Hstep.
-  destruct Hstep as (Ho1 & Hn1 & Hc1 & Hfr1 & Hp1 & Hm1).
+  destruct Hstep as (Ho1 & Hn1 & Hc1 & Hfr1 & Hp1 & Hm1 & _).
   specialize (IH told1 tnew1 (if pgetter_used H (told i) i L newL (pcnt (told i) - 1) then calls + 1 else calls) Ho1 Hn1 ltac:(lia)).
   destruct (pmigrate_bucket_c H mm hash f told1 tnew1 L newL i budget _) as [[[[told2 tnew2] c2] th]| | |]; try exact IH.
   destruct IH as ((Ho2 & Hn2 & Hp2 & Hm2) & Hc2 & Hfr2).
@@ -450,5 +477,89 @@ Proof.
         rewrite (Hz1 eq_refl) in Hx by lia. lia.
       * apply Hk2. left. exists g. split; assumption.
       * apply Hk2. right. apply Hm1. assumption.
+Qed.
+
+(* ---- round 5: every key is in EXACTLY one generation (LimP4) ---- *)
+Definition PUniq (L : Z) (t : ptable) : Prop :=
+  forall k b s b' s', PAt L t k b s -> PAt L t k b' s' -> b = b' /\ s = s'.
+Definition PSep (L newL : Z) (told tnew : ptable) : Prop :=
+  PUniq L told /\ PUniq newL tnew /\ forall k, ~ (PPresent L told k /\ PPresent newL tnew k).
+Definition PGood (L newL : Z) (told tnew : ptable) : Prop := PTinv L told /\ PTinv newL tnew /\ PSep L newL told tnew.
+
+Lemma prelocate_good L newL told tnew i told' tnew' : 0 <= L -> L < newL <= 63 -> 0 <= i < 2 ^ L -> pcnt (told i) <> 0 ->
+  PGood L newL told tnew -> prelocate_item H mm hash told tnew L newL i = Ok (told', tnew') -> PGood L newL told' tnew'.
+Proof.
+  intros HL HnL Hi Hc (Hold & Hnew & Huo & Hun & Hdis) Heq.
+  pose proof (pbwf_cnt L _ (proj1 Hold i)) as Hc0.
+  pose proof (prelocate_item_spec L newL told tnew i HL HnL Hold Hnew Hi ltac:(lia)) as Hs. rewrite Heq in Hs.
+  destruct Hs as (Ho' & Hn' & _ & _ & _ & _ & Hat & Hpo & (b0 & s0 & Hfree & Hpn)).
+  set (key := pky (told i) (pcnt (told i) - 1)) in *. set (lo := pcnt (told i) - 1) in *.
+  split; [exact Ho'|]. split; [exact Hn'|]. split; [|split].
+  - intros k b s b' s' H1 H2. apply Hpo in H1. apply Hpo in H2. apply (Huo k); [apply H1|apply H2].
+  - intros k b s b' s' H1 H2. apply Hpn in H1. apply Hpn in H2.
+    destruct H1 as [H1|(E1 & -> & -> & _)], H2 as [H2|(E2 & -> & -> & _)].
+    + apply (Hun k); assumption.
+    + exfalso. subst k. apply (Hdis key). split; [exists i, lo; exact Hat|exists b, s; exact H1].
+    + exfalso. subst k. apply (Hdis key). split; [exists i, lo; exact Hat|exists b', s'; exact H2].
+    + split; reflexivity.
+  - intros k [(b & s & H1) (b' & s' & H2)]. apply Hpo in H1. destruct H1 as [H1 Hne]. apply Hpn in H2.
+    destruct H2 as [H2|(E & _)].
+    + apply (Hdis k). split; [exists b, s; exact H1|exists b', s'; exact H2].
+    + subst k. destruct (Huo key b s i lo H1 Hat) as [-> ->]. apply Hne. split; reflexivity.
+Qed.
+
+Lemma pmigrate_bucket_c_good L newL i budget : 0 <= L -> L < newL <= 63 -> 0 <= i < 2 ^ L ->
+  forall fuel told tnew calls, PGood L newL told tnew ->
+  match pmigrate_bucket_c H mm hash fuel told tnew L newL i budget calls with
+  | Ok (told', tnew', _, _) => PGood L newL told' tnew'
+  | _ => True
+  end.
+Proof.
+  intros HL HnL Hi. induction fuel as [|f IH]; intros told tnew calls Hg; [exact I|].
+  cbn [pmigrate_bucket_c]. destruct (Z.eqb_spec (pcnt (told i)) 0) as [Hz|Hnz]; [exact Hg|].
+  destruct (pgetter_used H (told i) i L newL (pcnt (told i) - 1) && (budget <=? calls)); [exact Hg|].
+  destruct (prelocate_item H mm hash told tnew L newL i) as [[told1 tnew1]| | |] eqn:E; try exact I.
+  apply IH. apply (prelocate_good L newL told tnew i told1 tnew1 HL HnL Hi Hnz Hg E).
+Qed.
+
+Lemma pmigrate_from_c_good L newL budget : 0 <= L -> L < newL <= 63 ->
+  forall n told tnew i calls, 0 <= i -> i + Z.of_nat n <= 2 ^ L -> PGood L newL told tnew ->
+  match pmigrate_from_c H mm hash n told tnew L newL i budget calls with
+  | Ok (told', tnew', _, _) => PGood L newL told' tnew'
+  | _ => True
+  end.
+Proof.
+  intros HL HnL. induction n as [|m IH]; intros told tnew i calls Hi Hn Hg; [exact Hg|].
+  cbn [pmigrate_from_c].
+  pose proof (pmigrate_bucket_c_good L newL i budget HL HnL ltac:(lia) 5%nat told tnew calls Hg) as Hb.
+  destruct (pmigrate_bucket_c H mm hash 5 told tnew L newL i budget calls) as [[[[told1 tnew1] c1] th]| | |]; try exact I.
+  destruct th; [exact Hb|]. apply IH; [lia|lia|exact Hb].
+Qed.
+
+Theorem pmigrate_from_c_exactly_one L newL budget told tnew calls : 0 <= L -> L < newL <= 63 -> PGood L newL told tnew ->
+  match pmigrate_from_c H mm hash (Z.to_nat (2 ^ L)) told tnew L newL 0 budget calls with
+  | Ok (told', tnew', _, thrown) =>
+      PGood L newL told' tnew' /\
+      (forall k, PPresent L told k \/ PPresent newL tnew k ->
+         (PPresent L told' k \/ PPresent newL tnew' k) /\ ~ (PPresent L told' k /\ PPresent newL tnew' k)) /\
+      (thrown = false -> forall k, PPresent L told k \/ PPresent newL tnew k -> PFound newL tnew' k)
+  | Exn => True
+  | _ => False
+  end.
+Proof.
+  intros HL HnL Hg. pose proof Hg as (Hold & Hnew & _).
+  assert (Hpos : 0 < 2 ^ L) by (apply pow2_pos; lia).
+  pose proof (pmigrate_from_c_spec L newL budget HL HnL (Z.to_nat (2 ^ L)) told tnew 0 calls ltac:(lia) ltac:(lia) Hold Hnew
+              ltac:(intros; lia)) as Hs.
+  pose proof (pmigrate_from_c_good L newL budget HL HnL (Z.to_nat (2 ^ L)) told tnew 0 calls ltac:(lia) ltac:(lia) Hg) as Hgd.
+  destruct (pmigrate_from_c H mm hash (Z.to_nat (2 ^ L)) told tnew L newL 0 budget calls) as [[[[told' tnew'] c'] th]| | |]; try exact Hs.
+  destruct Hs as ((Ho & Hn & Hp & Hm) & Hz). split; [exact Hgd|]. split.
+  - intros k Hk. split.
+    + destruct Hk as [Hk|Hk]; [apply Hp; exact Hk|right; apply Hm; exact Hk].
+    + destruct Hgd as (_ & _ & _ & _ & Hd). apply Hd.
+  - intros Hth k Hk. apply ppresent_found; [exact Hn|].
+    destruct Hk as [Hk|Hk]; [|apply Hm; exact Hk].
+    destruct (Hp k Hk) as [(b & s & Hb & Hs1 & _)|G]; [exfalso|exact G].
+    rewrite (Hz Hth) in Hs1 by lia. lia.
 Qed.
 End P4Inv.
